@@ -15,9 +15,24 @@ CLAIMS = [
                 'z3/cvc5, reals for floats, project_by_dykstra contract (proved in C08). Bounded: rank<=3, sizes<=3/4, units<=2, <=2 trusts of each kind.',
         'design_ref': 'DESIGN.md section 4 C01',
     },
+    {
+        'property_id': 'C04',
+        'level': 'other',
+        'technique': 'contract-based deductive verification of the real function bodies (sidecar contracts, loop '
+                     'contract for tf.while_loop, VCs to z3/cvc5), per discrete configuration',
+        'text': 'Exact monotonicity, bounds, convexity (symbolic positive keypoint spacing), clamps and feasible=>unchanged '
+                'are postconditions on the real project_all_constraints, _finalize_constraints, the five projection helpers, '
+                'PWLCalibrationConstraints.__call__ and NaiveBoundsConstraints.__call__; discharged for ALL real kernels and '
+                'symbolic bounds, for 0/1/2 iterations by exact unrolling and for every count >= 1 through the loop contract. '
+                'Not `proof`: three obligation families are refuted on the unchanged tree (known findings F-C04a/b).',
+        'note': 'Trusted: operator contracts for tf.* incl. while_loop (cross-checked against TensorFlow each run), z3/cvc5, '
+                'reals for floats. Bounded: keypoints<=4 quick/6 thorough, units<=2; clamps/feasible=>unchanged decided for '
+                'iteration counts 0..2 only (loop abstraction forgets Dykstra increments).',
+        'design_ref': 'DESIGN.md section 4 C04',
+    },
 ]
 
 _PENDING = 'check not built yet in this session (planned, see DESIGN.md section 4); not claimed until its check exists'
 NOT_APPLICABLE = [
-    {'property_id': 'C%02d' % i, 'reason': _PENDING} for i in range(2, 21)
+    {'property_id': 'C%02d' % i, 'reason': _PENDING} for i in range(2, 21) if i not in (4,)
 ]
